@@ -485,3 +485,6 @@ def run(ctx):
     H = ctx.guarded("C05.receive", analyse_receive, ctx)
     ctx.guarded("C05.send", analyse_send, ctx, H)
     ctx.guarded("C05.state", rule_state, ctx)
+    # 'each length header immediately followed by its own payload' under concurrent senders: C11.hoh / C11.frame adopted
+    from . import c11
+    ctx.adopt_from("C11", [(c11.rule_hoh, ()), (c11.rule_once_frame, ())], {"C11.hoh": "C05.send", "C11.frame": "C05.send"})
